@@ -46,7 +46,8 @@ pub struct Arrangement {
     /// 0: b declares its own symbol; 1: b uses a's symbol; 2: b includes a.inc;
     /// 3: b has a syntax error; 4: b has a lexical error;
     /// 5: as 0, and every directory holds a real file named `stdgates.inc` (a decoy that must
-    /// never be read: the standard library is built in); 6: as 5, the decoy has a syntax error
+    /// never be read: the standard library is built in); 6: as 5, the decoy has a syntax error;
+    /// 7: as 0, and every directory that lacks one of the files holds a *directory* of that name
     pub b_kind: u8,
 }
 
@@ -57,7 +58,7 @@ fn content(f: usize, dir: usize, b_kind: u8) -> String {
     match f {
         0 => format!("int va = {};\nbit[2] ma;\n", 10 + dir),
         1 => match b_kind {
-            0 | 5 | 6 => format!("int vb = {};\n", 20 + dir),
+            0 | 5 | 6 | 7 => format!("int vb = {};\n", 20 + dir),
             1 => format!("int vb = {};\nint wb = va;\n", 20 + dir),
             3 => format!("int vb = ;\nint wb = {};\n", 20 + dir),
             4 => format!("int vb = 0b;\nint wb = {};\n", 20 + dir),
@@ -130,7 +131,16 @@ impl Tree {
                 }
             }
         }
-        if arr.b_kind >= 5 {
+        if arr.b_kind == 7 {
+            for (f, mask) in arr.presence.iter().enumerate() {
+                for d in 0..arr.ndirs {
+                    if mask & (1 << d) == 0 {
+                        std::fs::create_dir_all(root.join(DIRS[d]).join(FILES[f]))?;
+                    }
+                }
+            }
+        }
+        if arr.b_kind == 5 || arr.b_kind == 6 {
             for d in 0..arr.ndirs {
                 let text = if arr.b_kind == 5 { format!("int decoy = {};\ngate h w {{ }}\n", 90 + d) } else { "int decoy = ;\n".to_string() };
                 std::fs::write(root.join(DIRS[d]).join("stdgates.inc"), text)?;
@@ -258,7 +268,7 @@ impl Configs {
                 presence.push((x % masks) as u8);
                 x /= masks;
             }
-            for b_kind in 0..7u8 {
+            for b_kind in 0..8u8 {
                 // kinds 1 to 4 only matter when b is present somewhere
                 if (1..=4).contains(&b_kind) && presence.get(1).copied().unwrap_or(0) == 0 {
                     continue;
@@ -388,6 +398,13 @@ impl Configs {
         let mut got_all: Vec<String> = lists.iter().flat_map(|(_, k)| k.iter().cloned()).collect();
         let mut want_all: Vec<String> = rerrs.iter().map(|e| e.0.clone()).collect();
         want_all.extend(exp.extra.iter().cloned());
+        // "an include that cannot be read is reported": which I/O kind it is (not found, is a
+        // directory, ...) is not part of the statement
+        for k in got_all.iter_mut() {
+            if matches!(k.as_str(), "IOError" | "PermissionDenied" | "IsADirectory" | "InvalidFilename") {
+                *k = "FileNotFound".into();
+            }
+        }
         got_all.sort();
         want_all.sort();
         for k in &got_all {
@@ -416,7 +433,7 @@ impl Configs {
             }
             // the same file may be included more than once: some tagged list must match
             let ok = tagged.iter().any(|(_, ks)| {
-                let mut ks: Vec<String> = ks.iter().filter(|k| *k != "FileNotFound").cloned().collect();
+                let mut ks: Vec<String> = ks.iter().filter(|k| !matches!(k.as_str(), "FileNotFound" | "IOError" | "PermissionDenied" | "IsADirectory" | "InvalidFilename")).cloned().collect();
                 ks.sort();
                 ks == want
             });
